@@ -48,7 +48,7 @@ def correspondence(ck, cases, results, label="Cases_C03", shard=80):
         ck.oblige("%s_%d.v:evaluates" % (label, i), ok, out[-1500:], kind="correspondence")
         if not ok:
             continue
-        for m in re.finditer(r"\((\d+)%nat, (\d+)%nat\)", res[0] if res else ""):
+        for m in re.finditer(r"\((\d+)(?:%nat)?, (\d+)(?:%nat)?\)", res[0] if res else ""):
             case, r = chunk[int(m.group(1))]
             bits = int(m.group(2))
             ck.disagree("Validate.validate(%s)" % "+".join(n for b, n in ((1, "recursive"), (2, "non-recursive")) if bits & b),
@@ -123,6 +123,248 @@ def mutate(L, G, t, rng, n):
             node["kw"].append([py, leaf])
 
 
+# ----------------------------------------------------------------------------- stored witnesses / Coq witnesses
+def T_(cls, **kw):
+    return {"cls": cls, "kw": [[k, v] for k, v in kw.items()]}
+
+
+def s_(x):
+    return {"s": x}
+
+
+IAF = dict(leak_reversal=s_("-50mV"), thresh=s_("-55mV"), reset=s_("-70mV"), C=s_("0.2nF"), leak_conductance=s_("0.01uS"))
+W_INHERITED = {"tree": T_("NeuroMLDocument", id=s_("d"), iaf_cells={"l": [T_("IafCell", id=s_("bad id!"), **IAF)]}),
+               "tag": "neuroml", "doc": True}
+W_RANGE = {"tree": T_("SegmentParent", segments={"i": -3}), "tag": "probe_SegmentParent"}
+W_CHOICE = {"tree": T_("Layout"), "tag": "probe_Layout"}
+STORED = [("C03:inherited-member-of-child-not-validated", W_INHERITED,
+           "validate(recursive=True) accepts a document whose IafCell has the id 'bad id!' (an inherited member of a child)"),
+          ("C03:integer-range-not-checked", W_RANGE,
+           "validate accepts SegmentParent(segments=-3): the generated NonNegativeInteger/PositiveInteger validators have no range test"),
+          ("C03:choice-group-not-checked", W_CHOICE,
+           "validate accepts a Layout with none of random/grid/unstructured: nothing tests the occurrence constraints of a choice group")]
+
+
+def kw_obj(t):
+    """keyword tree -> Coq obj holding just the given members (absent members read as None in the model)"""
+    fs = []
+    for k, v in t["kw"]:
+        if v is None:
+            fs.append("(%s, VNone)" % coq_str(k))
+        elif "o" in v:
+            fs.append("(%s, VObj %s)" % (coq_str(k), kw_obj(v["o"])))
+        elif "l" in v:
+            fs.append("(%s, VObjs %s)" % (coq_str(k), coq_list([kw_obj(x) for x in v["l"]])))
+        else:
+            fs.append("(%s, %s)" % (coq_str(k), gdsgen.cval(v)))
+    return "(Obj %s %s)" % (coq_str(t["cls"]), coq_list(fs))
+
+
+def expected_unchecked(L):
+    """python mirror of Xsd.unchecked: the members whose schema constraints the generated code cannot test exactly
+    are the integer-typed attributes, the attributes with a fixed value and the members of choice groups"""
+    out = []
+    for c in L.T.order:
+        k = L.T.C[c]
+        attrs = {a["py"]: a for a in L.own_attrs(c)}
+        elems = {e["py"]: e for e in L.own_elems(c)}
+        for m in [a["py"] for a in k.get("exp_attrs", [])] + [e["py"] for e in k.get("exp_kids", [])]:
+            a = attrs.get(m)
+            if a is not None:
+                if L.st[a["st"]]["prim"] in ("nonNegativeInteger", "positiveInteger"):
+                    out.append((c, m, "VVal"))
+                if a["fixed"] is not None:
+                    out.append((c, m, "VVal"))
+            e = elems.get(m)
+            if e is not None and "choice" in e["ctx"]:
+                out.append((c, m, "VFew"))
+    return out
+
+
+def inst_text(L):
+    unch = coq_list(["(%s, %s, %s)" % (coq_str(c), coq_str(m), k) for c, m, k in expected_unchecked(L)])
+    doc, cell = kw_obj(W_INHERITED["tree"]), kw_obj(W_INHERITED["tree"]["kw"][1][1]["l"][0])
+    return ("From Coq Require Import String List ZArith Bool.\n"
+            "From LNML Require Import Lib.Dec Lib.Regex Model.Gds Model.Validate Model.Xsd.\n"
+            "From Run Require Import Gen_Bindings Gen_Validate Gen_Schema.\nImport ListNotations.\nOpen Scope string_scope.\n\n"
+            "(* the tables of this run with the recursion left to the generated validate_ methods, as shipped *)\n"
+            "Definition V_original : vtables := {| vt_mode := RecGenerated; vt_classes := vt_classes Gen_Validate.V |}.\n\n"
+            "Lemma agree_val_ok : disagree_val Gen_Validate.V Gen_Bindings.T Gen_Schema.S = [].\n"
+            "Proof. vm_compute. reflexivity. Qed.\n\n"
+            "Lemma unchecked_exact : unchecked Gen_Validate.V Gen_Bindings.T Gen_Schema.S =\n  %s.\n"
+            "Proof. vm_compute. reflexivity. Qed.\n\n"
+            "Definition w_doc : obj dec := %s.\nDefinition w_cell : obj dec := %s.\n"
+            "Lemma refuted_inherited : exists (doc cell : obj dec) (m : string),\n"
+            "  In cell (kids_of (field doc \"iaf_cells\")) /\\\n"
+            "  violation dec_veqb dec_ltb (fun d => d) Gen_Bindings.T Gen_Schema.S cell m = Some VVal /\\\n"
+            "  checkedb V_original Gen_Bindings.T Gen_Schema.S (o_cls dec cell) m VVal = true /\\\n"
+            "  x_validate V_original cell true <> [] /\\ x_validate V_original doc true = [].\n"
+            "Proof. exists w_doc, w_cell, \"id\". split; [left; reflexivity|]. split; [vm_compute; reflexivity|].\n"
+            "  split; [vm_compute; reflexivity|]. split; [vm_compute; discriminate | vm_compute; reflexivity]. Qed.\n\n"
+            "Definition w_range : obj dec := %s.\n"
+            "Lemma refuted_range : exists (o : obj dec) (m : string),\n"
+            "  violation dec_veqb dec_ltb (fun d => d) Gen_Bindings.T Gen_Schema.S o m = Some VVal /\\\n"
+            "  x_validate Gen_Validate.V o true = [].\n"
+            "Proof. exists w_range, \"segments\". split; vm_compute; reflexivity. Qed.\n\n"
+            "Definition w_choice : obj dec := %s.\n"
+            "Lemma refuted_choice : exists (o : obj dec),\n"
+            "  forallb (counts_ok (cnt_of o (exp_kids_of (cfuel Gen_Bindings.T) Gen_Bindings.T (o_cls dec o))))\n"
+            "          (eff_parts Gen_Schema.S (o_cls dec o)) = false /\\\n"
+            "  x_validate Gen_Validate.V o true = [].\n"
+            "Proof. exists w_choice. split; vm_compute; reflexivity. Qed.\n\n"
+            "(* last: false on a tree whose validate() still leaves the recursion to the generated code *)\n"
+            "Lemma recursion_walks_all_members : vt_mode Gen_Validate.V = RecAllMembers.\n"
+            "Proof. reflexivity. Qed.\n" % (unch, doc, cell, kw_obj(W_RANGE["tree"]), kw_obj(W_CHOICE["tree"])))
+
+
+# ----------------------------------------------------------------------------- the property on the real code
+def triples(L, G):
+    """every (type, member, facet) triple of the schema, own and inherited members: (type, member, facet, inherited, op)"""
+    out = []
+    for c in L.T.order:
+        for a in L.all_attrs(c):
+            inh = a["owner"] != c
+            if a["required"] and a["fixed"] is None:
+                out.append((c, a["py"], "required", inh, ("drop",)))
+            for lab, leaf in G.bad_values(a["st"]):
+                out.append((c, a["py"], lab, inh, ("set", leaf)))
+            if a["fixed"] is not None:
+                out.append((c, a["py"], "fixed", inh, ("set", {"s": a["fixed"] + "_x"})))
+        for e in L.all_elems(c):
+            inh = e["owner"] != c
+            ch = "-in-choice" if "choice" in e["ctx"] else ""
+            if e["type"] not in L.ct:
+                continue
+            if e["lo"] >= 1:
+                out.append((c, e["py"], "too-few" + ch, inh, ("count", e, e["lo"] - 1)))
+            if e["hi"] is not None and e["kind"] == "objlist":
+                out.append((c, e["py"], "too-many" + ch, inh, ("count", e, e["hi"] + 1)))
+        for k in L.chain(c):
+            for i, (lo, hi, alts) in enumerate(choices_of(L.ct[k]["content"])):
+                tags = [[t for t, _, _, _, _ in schemagen.flat_elems(a)] for a in alts]
+                if lo >= 1:
+                    out.append((c, "choice%d" % i, "choice-none", k != c, ("choice", k, [t for ts in tags for t in ts], [])))
+                if hi == 1 and len(alts) >= 2:
+                    out.append((c, "choice%d" % i, "choice-two", k != c,
+                                ("choice", k, [t for ts in tags for t in ts], [tags[0], tags[1]])))
+    return out
+
+
+def choices_of(p):
+    if p is None:
+        return []
+    if p[0] == "choice":
+        return [(p[1], p[2], p[3])] + [x for q in p[3] for x in choices_of(q)]
+    if p[0] in ("seq", "all"):
+        return [x for q in p[1] for x in choices_of(q)]
+    return []
+
+
+def apply_op(L, G, t, member, op):
+    if op[0] == "drop":
+        t["kw"] = [kv for kv in t["kw"] if kv[0] != member]
+    elif op[0] == "set":
+        t["kw"] = [kv for kv in t["kw"] if kv[0] != member] + [[member, op[1]]]
+    elif op[0] == "count":
+        e, n = op[1], op[2]
+        t["kw"] = [kv for kv in t["kw"] if kv[0] != member]
+        kids = [G.tree(e["type"], 0) for _ in range(n)]
+        if n and e["kind"] == "objlist":
+            t["kw"].append([member, {"l": kids}])
+        elif n:
+            t["kw"].append([member, {"o": kids[0]}])
+    elif op[0] == "choice":
+        k, tags, take = op[1], op[2], op[3]
+        es = {e["tag"]: e for e in L.own_elems(k)}
+        t["kw"] = [kv for kv in t["kw"] if kv[0] not in [es[x]["py"] for x in tags]]
+        for alt in take:
+            for tag in alt:
+                e = es[tag]
+                kid = G.tree(e["type"], 0)
+                t["kw"].append([e["py"], {"l": [kid]} if e["kind"] == "objlist" else {"o": kid}])
+
+
+def key_of(facet, inh, depth, via_inherited):
+    if facet == "integer-range":
+        return "C03:integer-range-not-checked"
+    if facet == "fixed":
+        return "C03:fixed-value-not-checked"
+    if facet.startswith("choice") or facet.endswith("-in-choice"):
+        return "C03:choice-group-not-checked"
+    if depth >= 1 and (inh or via_inherited):
+        return "C03:inherited-member-of-child-not-validated"
+    return None
+
+
+def property_cases(ck, L, G, depths, per, limit):
+    """(type, member, facet) x depth: the violated component inside conforming parents"""
+    rng = ck.rng
+    tr = triples(L, G)
+    ck.extra["schema_triples"] = len(tr)
+    cases = []
+    for (c, member, facet, inh, op) in tr:
+        for d in depths:
+            for _ in range(per):
+                steps = G.parent_steps(c, d) if d else []
+                if steps is None:
+                    continue
+                t = G.tree(c, 0)
+                apply_op(L, G, t, member, op)
+                root, path = G.embed(t, steps)
+                # below the root, a holder member that the holding class inherits is followed only by the repaired code
+                via = any(e["owner"] != par for par, e in steps[:-1])
+                rc = root["cls"]
+                cases.append({"tree": root, "tag": "probe_" + rc, "doc": rc == L.S["root"][1], "type": c, "member": member,
+                              "facet": facet, "inherited": inh, "depth": d, "via_inherited": via, "path": path})
+    if limit and len(cases) > limit:
+        # a seeded sample that keeps every facet kind and depth represented
+        rng.shuffle(cases)
+        seen, keep, rest = set(), [], []
+        for cs in cases:
+            k = (cs["facet"], cs["depth"], cs["inherited"])
+            (keep if k not in seen else rest).append(cs)
+            seen.add(k)
+        cases = keep + rest[:max(0, limit - len(keep))]
+    return cases
+
+
+def judge(ck, L, cs, r):
+    """the property predicate on one case of the real code"""
+    if "obj_err" in r or "text_err" in r or "lx" not in r:
+        ck.tally("prop:skipped:" + ("constructor" if "obj_err" in r else "export") + "-raised")
+        return
+    if not r["lx"]["wellformed"]:
+        ck.tally("prop:skipped:not-wellformed")
+        return
+    if r["lx"]["valid"]:
+        ck.tally("prop:skipped:libxml2-accepts (not a violation)")
+        return
+    ck.tally("prop:facet:" + cs["facet"])
+    ck.tally("prop:depth:%d" % cs["depth"])
+    ck.tally("prop:" + ("inherited" if cs["inherited"] else "own") + "-member")
+    ck.count(1, nontrivial_key=(cs["type"], cs["member"], cs["facet"], cs["depth"]),
+             sample={"type": cs["type"], "member": cs["member"], "facet": cs["facet"], "depth": cs["depth"],
+                     "xml": (r.get("text") or "")[-300:], "validate": r["rec"]["raised"]} if len(ck.samples) < 4 else None)
+    raised = r["rec"]["raised"]
+    key = key_of(cs["facet"], cs["inherited"], cs["depth"], cs["via_inherited"]) or \
+        "C03:%s.%s:%s" % (cs["type"], cs["member"], cs["facet"])
+    inp = {k: cs[k] for k in ("tree", "tag", "doc", "type", "member", "facet", "depth") if k in cs}
+    if raised is None:
+        ck.witness(key, "validate(recursive=True) accepts a tree whose %s.%s violates '%s' at depth %d; libxml2: %s" % (
+            cs["type"], cs["member"], cs["facet"], cs["depth"], r["lx"]["err"]), input=inp,
+            expected="ValueError", observed="no exception")
+        ck.tally("prop:accepted-invalid")
+    elif raised != "ValueError":
+        ck.witness("C03:validate-raises-" + raised, "validate(recursive=True) raises %s instead of ValueError: %s" % (
+            raised, r["rec"].get("text")), input=inp, expected="ValueError", observed=raised)
+    if cs.get("doc") and "file_valid" in r:
+        fv = r["file_valid"]
+        ck.tally("prop:file:" + str(fv))
+        if fv is True and raised == "ValueError":
+            ck.witness("C03:file-wrapper-accepts-what-validate-rejects", "is_valid_neuroml2 says True for the written file",
+                       input=inp, expected=False, observed=True)
+        elif fv is True and raised is None:
+            pass   # same defect as above, already reported under its structural key
 def run(ck):
     ck.rule = ("(a) model vs real validate(), recursive and not: for each of the 199 classes conforming trees, trees with "
                "1-3 violated facets at random depths and trees with members of a wrong python type; the collected messages "
@@ -149,10 +391,67 @@ def run(ck):
     ck.oblige("link:schema-items-have-binding-members", not L.problems, "; ".join(L.problems[:10]), kind="instance")
     G = schemagen.SchemaGen(L, ck.rng)
     order = {c: T.field_order(c) for c in T.order}
+    if not schemagen.gen_schema(ck, S) or not bindings.gen_bindings(ck, tab):
+        return
+    # ---- stored witnesses first (known findings are re-demonstrated on every run)
+    stored = [dict(w, key=k, what=what) for k, w, what in STORED]
+    sres = ck.impl("c03_impl.py", {"order": order, "cases": stored, "want": ["rec", "nonrec", "text", "file"]}, timeout=600)["results"]
+    for w, r in zip(stored, sres):
+        ck.tally("stored-witness")
+        lxv = r.get("lx", {}).get("valid")
+        ck.count(1, nontrivial_key=("stored", w["key"]))
+        if lxv is False and r["rec"]["raised"] is None:
+            ck.witness(w["key"], w["what"], input={k: w[k] for k in ("tree", "tag", "doc") if k in w},
+                       expected="ValueError (libxml2: %s)" % r["lx"]["err"], observed="no exception")
+        ck.extra.setdefault("stored_witness_outcomes", {})[w["key"]] = {
+            "libxml2_valid": lxv, "validate_raised": r["rec"]["raised"], "is_valid_neuroml2": r.get("file_valid")}
+    # ---- instance obligations and the theorems
+    inst = ck.gen_v("Inst_C03.v", inst_text(L))
+    iok, iout = ck.compile_obligations(inst, kind="instance")
+    if iok:
+        ck.compile_props()
+    else:
+        ck.oblige("Props_C03.v", False, "instance obligations failed", kind="theorem")
+    ck.extra["unchecked_by_generated_code"] = ["%s.%s:%s" % x for x in expected_unchecked(L)]
+    # ---- model vs real validate
     cases = correspondence_cases(ck, L, G, ck.n(3, 9))
+    cases += [dict(w, kind="stored") for w in stored]
     res = ck.impl("c03_impl.py", {"order": order, "cases": cases, "want": ["rec", "nonrec"]}, timeout=1500)["results"]
     for c, r in zip(cases, res):
         ck.tally("corr:" + c["kind"])
         if "obj_err" in r:
             ck.tally("corr:constructor-raised")
     correspondence(ck, cases, res)
+    # ---- the property itself on the real code
+    if ck.tier == "thorough":
+        pc = property_cases(ck, L, G, depths=(0, 1, 2, 3), per=1, limit=None)
+        ck.extra["exhaustive_over_triples_x_depths"] = True
+    else:
+        pc = property_cases(ck, L, G, depths=(0, 1, 2, 3), per=1, limit=420)
+    pres = []
+    for i in range(0, len(pc), 1500):
+        pres += ck.impl("c03_impl.py", {"order": order, "cases": pc[i:i + 1500], "want": ["rec", "nonrec", "text", "file"]},
+                        timeout=2400)["results"]
+    for cs, r in zip(pc, pres):
+        judge(ck, L, cs, r)
+    ck.extra["property_cases_generated"] = len(pc)
+    # the violated trees are correspondence cases as well (a seeded part of them in the quick tier)
+    sub = list(zip(pc, pres))
+    if ck.tier != "thorough":
+        sub = sub[:240]
+    correspondence(ck, [c for c, _ in sub], [r for _, r in sub], label="Cases_C03_prop")
+
+
+def replay(ck, data):
+    """re-run a stored failing input on the implementation (and print what libxml2 says about the written XML)"""
+    inp = data.get("input") or {}
+    tab = bindings.translate(ck)
+    T = bindings.Tables(tab)
+    order = {c: T.field_order(c) for c in T.order}
+    r = ck.impl("c03_impl.py", {"order": order, "cases": [inp], "want": ["rec", "nonrec", "text", "file"]})["results"][0]
+    out = {"stored": {k: data.get(k) for k in ("key", "what", "expected", "observed")},
+           "now": {"validate(recursive=True)": r.get("rec"), "libxml2": r.get("lx"), "is_valid_neuroml2": r.get("file_valid"),
+                   "xml": (r.get("text") or "")[:1500]}}
+    print(json.dumps(out, indent=1)[:6000])
+    bad = r.get("lx", {}).get("valid") is False and r.get("rec", {}).get("raised") is None
+    return 1 if bad else 0
